@@ -97,6 +97,14 @@ def user_write(w, d, c):
         f.write(w.cont[c])
 
 
+LISTFILE = "list.txt"
+# other spellings of the same in-place request (the route is chosen by comparing file NAMES, so the spelling matters)
+SPELLINGS = {"replace_dot": ["--replace", "./" + FNAME], "replace_dd": ["--replace", ".//" + FNAME],
+             "replace_F": ["--replace", "-F", LISTFILE], "replace_Fdd": ["--replace", "-F", LISTFILE],
+             "nobackup_dd": ["--no-backup", ".//" + FNAME], "nobackup_F": ["--no-backup", "-F", LISTFILE],
+             "fo_dd": ["-f", FNAME, "-o", ".//" + FNAME]}
+
+
 def run_cmd(w, k, m):
     cmd = [w.unc, "-c", os.path.join(w.root, k + ".cfg"), "-q"]
     if m == "replace":
@@ -105,7 +113,15 @@ def run_cmd(w, k, m):
         cmd += ["--no-backup", FNAME]
     elif m == "fo":
         cmd += ["-f", FNAME, "-o", FNAME]
+    else:
+        cmd += SPELLINGS[m]
     return cmd
+
+
+def prepare_spelling(d, m):
+    if m in ("replace_F", "nobackup_F", "replace_Fdd"):
+        with open(os.path.join(d, LISTFILE), "w") as f:
+            f.write((".//" if m.endswith("dd") else "") + FNAME + "\n")
 
 
 _SYS = re.compile(r"^(\w+)\((.*)$")
@@ -201,6 +217,7 @@ def traced_run(w, d, k, m, inject=None, timeout=30):
     for i in inject or []:
         cmd += ["-e", "inject=" + i]
     cmd += run_cmd(w, k, m)
+    prepare_spelling(d, m)
     rc, out, err = sh(cmd, timeout=timeout, cwd=d)
     text = open(logp, errors="replace").read() if os.path.exists(logp) else ""
     try:
@@ -219,6 +236,7 @@ def traced_run(w, d, k, m, inject=None, timeout=30):
 
 
 def plain_run(w, d, k, m, timeout=30):
+    prepare_spelling(d, m)
     rc, out, err = sh(run_cmd(w, k, m), timeout=timeout, cwd=d)
     return ("ok" if rc == 0 else "fail"), rc
 
